@@ -949,6 +949,7 @@ func (c *Ctx) stageInterleave(refs map[refKey]*Ref, keys []refKey) {
 	}
 	results := c.runBatch(specs)
 	nBad := 0
+	nShared, nSharedFindings := 0, 0
 	for i, r := range results {
 		ic := cases[i]
 		if len(r.Switches) > 0 {
@@ -959,6 +960,22 @@ func (c *Ctx) stageInterleave(refs map[refKey]*Ref, keys []refKey) {
 		}
 		if r.LockOps > 0 {
 			c.Ev.Probes["interleavings_with_lock_ops"]++
+		}
+		for _, mc := range r.MapConflicts {
+			where := c.conflictWhere(mc)
+			dup := false
+			for _, f := range c.Findings {
+				if f.Class == "shared-write" && f.Where == where {
+					dup = true
+				}
+			}
+			nShared++
+			if !dup && nSharedFindings < 6 {
+				nSharedFindings++
+				c.Findings = append(c.Findings, &Finding{Class: "shared-write", Scenario: refs[ic.ks[mc.TaskB%len(ic.ks)]].Sc.Name, Where: where,
+					Oracle:  "independent renders share no mutable map: no map is written by two tasks of one run (writes under a lock of the library excepted)",
+					Detail:  c.conflictDetail(mc), Spec: ic.spec, Expect: "map-conflict " + where})
+			}
 		}
 		for t, k := range ic.ks {
 			got := r.taskOp(t, "t")
@@ -978,7 +995,8 @@ func (c *Ctx) stageInterleave(refs map[refKey]*Ref, keys []refKey) {
 		}
 	}
 	c.Ev.Probes["interleavings"] = len(cases)
-	c.Logf("stage interleave: %d interleavings, %d with a task differing from its solo reference", len(cases), nBad)
+	c.Ev.Probes["maps_written_by_two_tasks"] = nShared
+	c.Logf("stage interleave: %d interleavings, %d with a task differing from its solo reference, %d maps written by two tasks", len(cases), nBad, nShared)
 }
 
 func (c *Ctx) minimizeInterleave(bad *Spec, task int, ref *Ref, r0 *Result) *Finding {
@@ -1196,4 +1214,25 @@ func (c *Ctx) stageRace(refs map[refKey]*Ref, keys []refKey) {
 // raceFrame returns the first webrender frame (file#func) of a race report.
 func raceFrame(stderr string) string {
 	return fatalFrame(stderr)
+}
+
+// conflictWhere names a map written by two tasks by the two write sites (stable across builds).
+func (c *Ctx) conflictWhere(mc MapConflict) string {
+	name := func(id int) string {
+		if st, ok := c.Build.Sites[id]; ok {
+			return st.File + "#" + st.Func + "(" + st.Name + ")"
+		}
+		return fmt.Sprintf("site%d", id)
+	}
+	return name(mc.SiteA) + "|" + name(mc.SiteB)
+}
+
+func (c *Ctx) conflictDetail(mc MapConflict) string {
+	line := func(id int) string {
+		if st, ok := c.Build.Sites[id]; ok {
+			return fmt.Sprintf("%s:%d (%s, map %s)", st.File, st.Line, st.Func, st.Name)
+		}
+		return fmt.Sprintf("site %d", id)
+	}
+	return fmt.Sprintf("the same map is written by task %d at %s and by task %d at %s, with no lock of the library held", mc.TaskA, line(mc.SiteA), mc.TaskB, line(mc.SiteB))
 }
